@@ -264,9 +264,9 @@ def work(job):
         res["status"] = "build: " + err[:300]
         res["src"] = case["src"]
         return res
-    ops = []
+    sessions = []
     for _ in range(10):
-        ops.append("start")
+        ops = ["start"]
         for i, (n, s, bits, a) in enumerate(case["ints"]):
             lo, hi = (-(1 << (bits - 1)), (1 << (bits - 1)) - 1) if s else (0, (1 << bits) - 1)
             v = rng.choice([0, 1, 2, 7, 100, 255, hi, lo, hi - 1, rng.randint(lo, hi), rng.randint(-5, 300)])
@@ -274,21 +274,32 @@ def work(job):
             ops.append(f"seti:{i}:{v}")
         data = b"x" + (b"y" if rng.random() < 0.5 else b"z") + b"w"
         ops.append(f"feed:{data.hex()}")
-    cl, status, err = b.run(ops)
-    shutil.rmtree(wd, ignore_errors=True)
-    if status != "ok":
-        res["viol"] = {"kind": "binary-" + status, "src": case["src"], "detail": err[-300:]}
-        return res
-    ml = rtdiff.model().ask("rt", opts, case["machine"], ";".join(ops)).split(" ## ")
-    for cs, ms in zip(rtdiff.segments(cl), rtdiff.segments(ml)):
+        sessions.append(ops)
+    # the reference first: a valuation on which the expression is undefined in C (signed overflow, a shift beyond the
+    # width, ...) is not run at all - the compiled code may do anything there, crashing included
+    ml = rtdiff.model().ask("rt", opts, case["machine"], ";".join(o_ for ses in sessions for o_ in ses)).split(" ## ")
+    msegs = rtdiff.segments(ml)
+    keep = []
+    for ses, ms in zip(sessions, msegs):
         res["evals"] += 1
         if rtdiff.model_ub(ms):
             res["ub"] += 1
-            continue
+        else:
+            keep.append((ses, ms))
+    if len(msegs) != len(sessions):
+        res["viol"] = {"kind": "model-sessions", "src": case["src"], "detail": f"{len(msegs)} model segments for {len(sessions)} sessions"}
+        shutil.rmtree(wd, ignore_errors=True)
+        return res
+    cl, status, err = b.run([o_ for ses, _ in keep for o_ in ses]) if keep else ([], "ok", "")
+    shutil.rmtree(wd, ignore_errors=True)
+    if status != "ok":
+        res["viol"] = {"kind": "binary-" + status, "src": case["src"], "args": case["args"], "ops": [o_ for ses, _ in keep for o_ in ses], "detail": err[-300:]}
+        return res
+    for cs, (ses, ms) in zip(rtdiff.segments(cl), keep):
         d = rtdiff.compare(cs, ms)
         if d is not None:
             res["viol"] = {"kind": "value-differs", "src": case["src"], "expr": case["expr"], "context": case["ctx"], "args": case["args"],
-                           "binary": cs, "reference": ms}
+                           "ops": ses, "binary": cs, "reference": ms}
             break
     return res
 
